@@ -12,7 +12,7 @@ MANIFEST = {
             'deepcopy (and by a dill round trip on a sub-family; thorough: all) after 0, 1 or 2 preceding operations; then every interleaving of up to 2 operations per object (thorough 3) '
             'from {plain calculation, two different overrides, compiled call, re-finish} is executed on the pair. Every result must equal what a freshly built model returns for the '
             'same operation (so the copy is equivalent and neither object can see the other\'s operations). The same is done for compiled functions (ExcelModel.compile and '
-            'Parser.compile) and their copies with all argument-tuple interleavings.',
+            'Parser.compile) and their copies with all argument-tuple interleavings. Further models: constant array formulas entered in ranges larger than their result, and a sparse range read through the dispatcher\'s self reference.',
     'note': 'Trusted: the fresh-model result as reference (history independence of a single model is C07). Shared mutable objects are reported in the evidence but judged only through results.',
 }
 RULE = 'case = (model, copy kind, preceding ops, interleaving); non-trivial = both objects operated; distinct = case key'
